@@ -25,7 +25,7 @@ Record ocase := {
   oc_status : N;                  (* HTTP status *)
   oc_body : obody;
   oc_changed : bool;              (* a store mutation event was recorded or the digest changed *)
-  oc_spans : list string          (* normalised names of the handler spans created *)
+  oc_spans : list string          (* names of the handler spans created (Rust fn names or name= overrides) *)
 }.
 
 (* lower-case, underscores removed: brc20_finalise_block ~ brc20_finaliseBlock *)
@@ -78,7 +78,7 @@ Definition check_ocase (t : mtable) (deny : list method) (c : ocase) : bool :=
   (* state may change only if a handler measured as mutating is reached *)
   && (existsb (tbl_mutates t) (o_trace r) || negb (oc_changed c))
   (* every handler that ran is one the model reaches *)
-  && forallb (fun sp => existsb (fun m => String.eqb (norm_name m) sp) (o_trace r)) (oc_spans c).
+  && forallb (fun sp => existsb (fun m => String.eqb (norm_name m) (norm_name sp)) (o_trace r)) (oc_spans c).
 
 Definition bad_ocases (t : mtable) (deny : list method) (cs : list ocase) : list N :=
   map oc_id (filter (fun c => negb (check_ocase t deny c)) cs).
